@@ -127,6 +127,7 @@ fn os_state_checks(set: &OrderedSet<El>) -> Option<String> {
 
 pub fn replay_ordered_set(cases: &[Value], rep: &mut Report) {
   for case in cases {
+    note_case(case);
     rep.eval();
     let op = &case["op"];
     let name = s(&op["name"]).to_string();
@@ -317,6 +318,7 @@ fn oos_proj_opt(cur: &Option<OneOrSet<El>>) -> Value {
 
 pub fn replay_one_or_set(cases: &[Value], rep: &mut Report) {
   for case in cases {
+    note_case(case);
     rep.eval();
     let op = &case["op"];
     let name = s(&op["name"]).to_string();
@@ -508,6 +510,7 @@ fn oom_state_checks(x: &OneOrMany<El>) -> Option<String> {
 
 pub fn replay_one_or_many(cases: &[Value], rep: &mut Report) {
   for case in cases {
+    note_case(case);
     rep.eval();
     let op = &case["op"];
     let name = s(&op["name"]).to_string();
